@@ -230,6 +230,7 @@ func (in *Interp) reset(prefix []int) {
 	in.pools = nil
 	in.raceOn, in.raceActor, in.raceCells = false, 0, nil
 	in.onces = nil
+	in.illFormed, in.utf8fixDeclared = nil, false
 	in.blobStrs = nil
 	in.blobByID = nil
 	in.hints = nil
